@@ -193,3 +193,245 @@ func runC10Compile(payload string) string {
 	}
 	return out + fmt.Sprintf(" ### nt=%d bound=%d reps=%s result=%s", nt, nbound, repTag, strings.Fields(kind)[0])
 }
+
+// ---------------------------------------------------------------------------
+// c10.observe: the same clause added through Exec (program text) and through assertz, observed
+// through clause/2, by calling it, and through retract/1 — across SEPARATE queries.
+// payload: `<clause wire> | <bindings k=wire & …>`   (head functor p; the Exec copy is named p2)
+// ---------------------------------------------------------------------------
+
+func init() {
+	register(&stream{name: "c10.observe", gen: genC10Observe, run: runC10Observe})
+}
+
+func (g *termGen) safeGoal() *gt {
+	switch k := g.r.Intn(12); {
+	case k < 2:
+		return gAtom("true")
+	case k < 3:
+		return gAtom("fail")
+	case k < 4:
+		return gAtom("!")
+	case k < 7:
+		return gApp("q", g.term(1))
+	case k < 8:
+		return gVar(g.r.Intn(g.nvars)) // a variable goal: bound to a callable term by the query below
+	default:
+		return gApp("=", g.term(2), g.term(2))
+	}
+}
+
+func genC10Observe(r *rand.Rand, n int, tier string) []string {
+	var out []string
+	for i := 0; i < n; i++ {
+		g := &termGen{r: r, nvars: 1 + r.Intn(5)}
+		k := r.Intn(4)
+		var head *gt
+		if k == 0 {
+			head = gAtom("p")
+		} else {
+			args := make([]*gt, k)
+			for j := range args {
+				args[j] = g.term(2)
+			}
+			head = gApp("p", args...)
+		}
+		clause := head
+		if r.Intn(4) > 0 {
+			m := 1 + r.Intn(3)
+			gs := make([]*gt, m)
+			for j := range gs {
+				gs[j] = g.safeGoal()
+			}
+			body := gs[m-1]
+			for j := m - 2; j >= 0; j-- {
+				body = gApp(",", gs[j], body)
+			}
+			if r.Intn(20) == 0 {
+				body = gApp(";", body, g.safeGoal())
+			}
+			clause = gApp(":-", head, body)
+		}
+		var binds []string
+		for v := 0; v < g.nvars; v++ {
+			if r.Intn(3) == 0 {
+				g2 := &termGen{r: r, nvars: g.nvars}
+				t := g2.term(1)
+				if gtOccurs(v, t) || t.kind == "flt" {
+					continue
+				}
+				binds = append(binds, fmt.Sprintf("%d=%s", v, t))
+			}
+		}
+		if stoClosureBinds(binds) {
+			binds = nil
+		}
+		// the =/2 goals of the body, taken together, must not be subject to occurs check (cyclic
+		// terms are outside every property and overflow the Go stack in several builtins)
+		var ls, rs []*gt
+		var collect func(t *gt)
+		collect = func(t *gt) {
+			if t.kind == "app" && t.s == "=" && len(t.args) == 2 {
+				ls, rs = append(ls, t.args[0]), append(rs, t.args[1])
+			}
+			for _, a := range t.args {
+				collect(a)
+			}
+		}
+		collect(clause)
+		for _, b := range binds {
+			kv := strings.SplitN(b, "=", 2)
+			var v int
+			fmt.Sscanf(kv[0], "%d", &v)
+			ls, rs = append(ls, gVar(v)), append(rs, parseGT(kv[1]))
+		}
+		if len(ls) > 0 && stoClosure(gApp("t", ls...), gApp("t", rs...)) {
+			i--
+			continue
+		}
+		out = append(out, fmt.Sprintf("%s | %s", clause, strings.Join(binds, " & ")))
+	}
+	return out
+}
+
+// stoClosureBinds: would the bindings create a cyclic term?
+func stoClosureBinds(binds []string) bool {
+	var l, r []*gt
+	for _, b := range binds {
+		kv := strings.SplitN(b, "=", 2)
+		var v int
+		fmt.Sscanf(kv[0], "%d", &v)
+		l = append(l, gVar(v))
+		r = append(r, parseGT(kv[1]))
+	}
+	if len(l) == 0 {
+		return false
+	}
+	return stoClosure(gApp("t", l...), gApp("t", r...))
+}
+
+func renameHead(t engine.Term, to string) engine.Term {
+	ren := func(h engine.Term) engine.Term {
+		switch h := h.(type) {
+		case engine.Atom:
+			return atom(to)
+		case engine.Compound:
+			args := make([]engine.Term, h.Arity())
+			for i := range args {
+				args[i] = h.Arg(i)
+			}
+			return atom(to).Apply(args...)
+		}
+		return h
+	}
+	if c, ok := t.(engine.Compound); ok && c.Functor().String() == ":-" && c.Arity() == 2 {
+		return compound(":-", ren(c.Arg(0)), c.Arg(1))
+	}
+	return ren(t)
+}
+
+func runC10Observe(payload string) string {
+	f := strings.Split(payload, " | ")
+	cl, bindS := f[0], ""
+	if len(f) > 1 {
+		bindS = f[1]
+	}
+	i, outBuf := newInterp("")
+	if err := i.Exec(":- dynamic(p/0). :- dynamic(p/1). :- dynamic(p/2). :- dynamic(p/3). :- dynamic(p2/0). :- dynamic(p2/1). :- dynamic(p2/2). :- dynamic(p2/3). q(1). q(2). q(a)."); err != nil {
+		return "setup-" + errWire(err)
+	}
+	vars := map[int]engine.Variable{}
+	reps := map[string]bool{}
+	var pre []engine.Term
+	var lvars []engine.Variable
+	b := &builder{i: i, vars: vars, recipe: "b", reps: reps, pre: &pre, lvars: &lvars}
+	gcl := parseGT(cl)
+	t := b.build(gcl)
+	arity := 0
+	hd := gcl
+	if gcl.kind == "app" && gcl.s == ":-" && len(gcl.args) == 2 {
+		hd = gcl.args[0]
+	}
+	if hd.kind == "app" {
+		arity = len(hd.args)
+	}
+	var bindGoals []engine.Term
+	if strings.TrimSpace(bindS) != "" {
+		for _, bs := range strings.Split(bindS, " & ") {
+			kv := strings.SplitN(bs, "=", 2)
+			var v int
+			fmt.Sscanf(kv[0], "%d", &v)
+			bindGoals = append(bindGoals, compound("=", b.variable(v), b.build(parseGT(kv[1]))))
+		}
+	}
+	// all variables of the case, to observe that storing/reading the clause binds none of them
+	nv := 0
+	for k := range vars {
+		if k+1 > nv {
+			nv = k + 1
+		}
+	}
+	vs := make([]engine.Term, nv)
+	for k := range vs {
+		vs[k] = b.variable(k)
+	}
+	// query 1: bind, assertz the clause, print it as text for the Exec path, then bind the variables
+	// further AFTER storing (must not affect the stored clause); observe the caller's variables
+	outBuf.Reset()
+	goal := engine.Term(compound(",", compound("assertz", t), compound(",", compound("write_canonical", renameHead(t, "p2")), compound("=", engine.List(vs...), engine.List(vs...)))))
+	for k := len(bindGoals) - 1; k >= 0; k-- {
+		goal = compound(",", bindGoals[k], goal)
+	}
+	var after string
+	_, err := solve(&i.VM, goal, 1, 5*time.Second, func(env *engine.Env) bool {
+		after = wire(engine.List(vs...), env, newVarNamer())
+		return false
+	})
+	if err != nil {
+		return "assert-" + errWire(err) + " ### nt=0 result=asserterr"
+	}
+	text := outBuf.String()
+	if err := i.Exec(fmt.Sprintf(":- dynamic(p2/%d). ", arity) + text + " ."); err != nil {
+		return "exec-" + errWire(err) + " text=" + encName(text) + " ### nt=0 result=execerr"
+	}
+	args := func() []engine.Term {
+		as := make([]engine.Term, arity)
+		for k := range as {
+			as[k] = engine.NewVariable()
+		}
+		return as
+	}
+	mk := func(name string, as []engine.Term) engine.Term {
+		if len(as) == 0 {
+			return atom(name)
+		}
+		return atom(name).Apply(as...)
+	}
+	observe := func(name string) string {
+		// separate queries: clause/2, calling, retract/1 (which also must not bind caller variables)
+		as := args()
+		bv := engine.NewVariable()
+		cls, e1 := solveAll(&i.VM, compound("clause", mk(name, as), bv), compound(":-", mk("p", as), bv), 20)
+		as2 := args()
+		ans, e2 := solveAll(&i.VM, mk(name, as2), mk("p", as2), 20)
+		as3 := args()
+		bv3 := engine.NewVariable()
+		ret, e3 := solveAll(&i.VM, compound("retract", compound(":-", mk(name, as3), bv3)), compound(":-", mk("p", as3), bv3), 20)
+		as4 := args()
+		left, _ := solveAll(&i.VM, compound("clause", mk(name, as4), engine.NewVariable()), atom("x"), 20)
+		es := ""
+		for _, e := range []error{e1, e2, e3} {
+			if e != nil {
+				es += " " + errWire(e)
+			}
+		}
+		return fmt.Sprintf("clause=[%s] call=[%s] retract=[%s] left=%d%s", strings.Join(cls, " , "), strings.Join(ans, " , "), strings.Join(ret, " , "), len(left), es)
+	}
+	a := observe("p")
+	bb := observe("p2")
+	nt := 0
+	if strings.Contains(cl, "C2::-") && (strings.TrimSpace(bindS) != "" || strings.Count(cl, "V0") > 1) {
+		nt = 1
+	}
+	return fmt.Sprintf("vars=%s ;; assert: %s ;; exec: %s ### nt=%d result=ok", after, a, bb, nt)
+}
